@@ -50,6 +50,42 @@ M("C16", "finish_skips", "ui/components/progress_bar.py",
 M("C16", "negative_step_kept", "ui/components/progress_bar.py",
   "        elif step < 0:\n            step = 0\n", "        elif step < -1:\n            step = 0\n")
 
+# ---- C05 ------------------------------------------------------------------------------------
+M("C05", "options_not_reset", "args/default_args_parser.py",
+  "        self._arguments = OrderedDict()\n        self._options = OrderedDict()\n\n        arguments = OrderedDict()",
+  "        self._arguments = OrderedDict()\n\n        arguments = OrderedDict()")
+M("C05", "arguments_not_reset", "args/default_args_parser.py",
+  "        self._arguments = OrderedDict()\n        self._options = OrderedDict()\n\n        arguments = OrderedDict()",
+  "        self._options = OrderedDict()\n\n        arguments = OrderedDict()")
+M("C05", "tokens_not_copied", "args/default_args_parser.py",
+  "        tokens = raw_args.tokens[:]", "        tokens = raw_args.tokens")
+M("C05", "argv_not_copied", "args/argv_args.py", "        argv = argv[:]\n", "")
+M("C05", "options_reset_only_on_success", "args/default_args_parser.py",
+  "        self._options = OrderedDict()\n\n        arguments = OrderedDict()",
+  "        arguments = OrderedDict()")
+M("C05", "multi_default_shared", "api/args/args.py",
+  "            if not isinstance(value, list):\n                value = [value]\n\n            for i, v in enumerate(value):\n                value[i] = option.parse(v)",
+  "            if not isinstance(value, list):\n                value = [value]\n            option.default.extend(value)\n\n            for i, v in enumerate(value):\n                value[i] = option.parse(v)")
+
+# ---- C06 ------------------------------------------------------------------------------------
+M("C06", "copt_insert_before_alias_check", "api/args/format/args_format_builder.py",
+  "        for short_alias in short_aliases:\n            if self.has_option(short_alias) or self.has_command_option(short_alias):\n                raise CannotAddOptionException.already_exists(short_alias)\n\n        self._command_options[long_name] = command_option\n",
+  "        self._command_options[long_name] = command_option\n\n        for short_alias in short_aliases:\n            if self.has_option(short_alias) or self.has_command_option(short_alias):\n                raise CannotAddOptionException.already_exists(short_alias)\n")
+M("C06", "option_ignores_copt_short", "api/args/format/args_format_builder.py",
+  "        if self.has_option(short_name) or self.has_command_option(short_name):\n            raise CannotAddOptionException.already_exists(short_name)\n\n        self._options[long_name] = option",
+  "        if self.has_option(short_name):\n            raise CannotAddOptionException.already_exists(short_name)\n\n        self._options[long_name] = option")
+M("C06", "multi_flag_set_before_checks", "api/args/format/args_format_builder.py",
+  "        name = argument.name\n\n        if self.has_argument(name):",
+  "        name = argument.name\n\n        if argument.is_optional():\n            self._hash_optional_arg = True\n\n        if self.has_argument(name):")
+M("C06", "set_arguments_keeps_flags", "api/args/format/args_format_builder.py",
+  "        self._arguments = {}\n        self._has_multi_valued_arg = False\n        self._hash_optional_arg = False\n",
+  "        self._arguments = {}\n")
+M("C06", "base_optional_ignored", "api/args/format/args_format_builder.py",
+  "        if self._hash_optional_arg:\n            return True\n\n        if include_base and self._base_format:\n            return self._base_format.has_optional_argument()",
+  "        if self._hash_optional_arg:\n            return True\n\n        if include_base and self._base_format and False:\n            return self._base_format.has_optional_argument()")
+M("C06", "format_short_index_skips_alias", "api/args/format/args_format.py",
+  "            for short_alias in command_option.short_aliases:\n                self._command_options_by_short_name[short_alias] = command_option\n", "")
+
 
 def run_one(m, runs):
     prop, name, path, old, new, expect = m
